@@ -88,6 +88,9 @@ func (ex *Exec) frameObligations(fr *Frame, out *State, reach *smt.Term, env *CE
 	}
 	sort.Strings(names)
 	for _, name := range names {
+		if name[0] == 'L' || name[0] == 'N' {
+			continue // ghost logs are not subject to modifies clauses
+		}
 		cur := out.heap[name]
 		k := ex.keys[name]
 		base, ok := ex.entrySt.heap[name]
